@@ -161,7 +161,11 @@ solveNormalizedCubic (T r, T s, T t, T x[3])
             return sign * std::pow (sign * a, T (1) / x);
         };
 
-        T u = real_root (-q / 2 + std::sqrt (D), 3);
+        // u^3 and v^3 are -q/2 +- sqrt(D) and u*v = -p/3, so either sign gives
+        // the same root; take the one that adds magnitudes instead of
+        // cancelling them.
+        T u = real_root (
+            (q > 0) ? -q / 2 - std::sqrt (D) : -q / 2 + std::sqrt (D), 3);
         T v = -p / (T (3) * u);
 
         x[0] = u + v - r / 3;
